@@ -239,6 +239,14 @@ def build_corpus(app):
     add('post two consumers', op='alloc_post', v=39,
         entries=[s.entry('c1', {'p1': {'VCPU': 1}}, cgen=-1),
                  s.entry('c3', {'p3': {'DISK_GB': 6, 'VCPU': 1}}, project='proj3')])
+    add('post emptying one consumer and writing another (move)', op='alloc_post', v=39,
+        entries=[s.entry('c3', {}), s.entry('c1', {'p1': {'VCPU': 1}, 'p3': {'DISK_GB': 2}}, cgen=-1)])
+    add('post emptying two consumers', op='alloc_post', v=39,
+        entries=[s.entry('c3', {}), s.entry('c4', {}, project='proj2', user='user2', ctype='MIGRATION')])
+    add('reshape emptying one consumer and writing another', op='reshape', v=39,
+        invs=[{'u': 'p3', 'gen': g('p3'), 'invs': [{'rc': 'VCPU', 'inv': INV(4)}, {'rc': 'DISK_GB', 'inv': INV(50)},
+                                                   {'rc': 'MEMORY_MB', 'inv': INV(64)}]}],
+        entries=[s.entry('c3', {}), s.entry('c1', {'p3': {'VCPU': 1}}, cgen=-1)])
     add('reshape moving a class to the child', op='reshape', v=39,
         invs=[{'u': 'p3', 'gen': g('p3'), 'invs': [{'rc': 'VCPU', 'inv': INV(4)}, {'rc': 'MEMORY_MB', 'inv': INV(64)}]},
               {'u': 'p4', 'gen': g('p4'), 'invs': [{'rc': 'DISK_GB', 'inv': INV(50)}]}],
